@@ -458,15 +458,66 @@ func ruleRecoveryBuild(c *RC) *RuleResult {
 	}
 	cond := map[string]string{"ctx.PreparationPayloads": "", "ctx.LastChangeViewPayloads": "", "ctx.PreCommitPayloads": "ctx.PreCommitPayloads[ctx.MyIndex]!=nil", "ctx.CommitPayloads": "ctx.CommitPayloads[ctx.MyIndex]!=nil"}
 	seen := map[string]bool{}
-	for _, s := range c.A.FnSites[b] {
-		if s.Kind != "call" || s.Callee != "if:RecoveryMessage.AddPayload" {
-			continue
-		}
-		for _, sn := range s.Snaps {
-			if len(sn.Args) != 1 || sn.Args[0].K != KElem {
+	// an "add" is a call of AddPayload with the ranged element of a table, in the builder itself or in a helper that
+	// adds every non-nil element of a slice parameter (then the table is the argument at the builder's call)
+	type add struct {
+		site  *Site
+		table string
+		conds []Lit
+	}
+	var adds []add
+	adderParam := func(g *FuncInfo) int {
+		for _, s := range c.A.FnSites[g] {
+			if s.Kind != "call" || s.Callee != "if:RecoveryMessage.AddPayload" {
 				continue
 			}
-			table := sn.Args[0].Args[0].S
+			for _, sn := range s.Snaps {
+				if len(sn.Args) != 1 || sn.Args[0].K != KElem || sn.Args[0].Args[0].K != KParam {
+					continue
+				}
+				only := true
+				for _, l := range condLits(s) {
+					if !strings.HasPrefix(l.A.S, "elem(") {
+						only = false
+					}
+				}
+				if !only {
+					continue
+				}
+				for j, p := range g.Params {
+					if p.Name() == sn.Args[0].Args[0].Name {
+						return j
+					}
+				}
+			}
+		}
+		return -1
+	}
+	for _, s := range c.A.FnSites[b] {
+		if s.Kind != "call" {
+			continue
+		}
+		if s.Callee == "if:RecoveryMessage.AddPayload" {
+			for _, sn := range s.Snaps {
+				if len(sn.Args) == 1 && sn.Args[0].K == KElem {
+					adds = append(adds, add{s, sn.Args[0].Args[0].S, condLits(s)})
+				}
+			}
+			continue
+		}
+		if s.Target != nil && s.Target != b && s.Target.Pkg.PkgPath == modPath {
+			if j := adderParam(s.Target); j >= 0 {
+				for _, sn := range s.Snaps {
+					if j < len(sn.Args) && sn.Args[j] != nil {
+						adds = append(adds, add{s, sn.Args[j].S, condLits(s)})
+					}
+				}
+			}
+		}
+	}
+	for _, ad := range adds {
+		s, table := ad.site, ad.table
+		{
 			want, known := cond[table]
 			r.Sites++
 			if !known {
@@ -475,7 +526,7 @@ func ruleRecoveryBuild(c *RC) *RuleResult {
 			}
 			// allowed conditions for reaching the site: element != nil, and (for commits) the own-(pre)commit predicate
 			bad := ""
-			for _, l := range condLits(s) {
+			for _, l := range ad.conds {
 				k := l.A.S
 				switch {
 				case strings.HasPrefix(k, "elem("):
@@ -519,14 +570,53 @@ func ruleRecoveryReplay(c *RC) *RuleResult {
 		r.unresolved("payload getters of the RecoveryMessage interface")
 	}
 	fed := map[string]bool{}
-	for _, s := range c.A.FnSites[h] {
-		if s.Kind == "call" && s.Target == c.API["OnReceive"] {
+	mark := func(t *Term) {
+		for _, g := range getters {
+			if strings.Contains(t.S, "l:if:RecoveryMessage."+g+":") {
+				fed[g] = true
+			}
+		}
+	}
+	// helpers that hand (the elements of) a parameter to OnReceive: parameter positions
+	feeds := func(fn *FuncInfo) map[int]bool {
+		out := map[int]bool{}
+		for _, s := range c.A.FnSites[fn] {
+			if s.Kind == "call" && s.Target == c.API["OnReceive"] {
+				for _, sn := range s.Snaps {
+					if len(sn.Args) == 1 {
+						for i, p := range fn.Params {
+							if strings.Contains(sn.Args[0].S, "p:"+p.Name()+")") || strings.HasSuffix(sn.Args[0].S, "p:"+p.Name()) {
+								out[i] = true
+							}
+						}
+					}
+				}
+			}
+		}
+		return out
+	}
+	rec := c.inlineSites(h, false)
+	var hsites []*Site
+	for _, g := range c.Prog.sortedFuncs() {
+		hsites = append(hsites, rec.FnSites[g]...)
+	}
+	for _, s := range hsites {
+		if s.Kind != "call" || s.Target == nil {
+			continue
+		}
+		if s.Target == c.API["OnReceive"] {
 			for _, sn := range s.Snaps {
 				if len(sn.Args) == 1 {
-					for _, g := range getters {
-						if strings.Contains(sn.Args[0].S, "l:if:RecoveryMessage."+g+":") {
-							fed[g] = true
-						}
+					mark(sn.Args[0])
+				}
+			}
+			continue
+		}
+		if s.Target != h && s.Target.Pkg.PkgPath == modPath {
+			for i := range feeds(s.Target) {
+				for _, sn := range s.Snaps {
+					if i < len(sn.Args) && sn.Args[i] != nil {
+						mark(sn.Args[i])
 					}
 				}
 			}
